@@ -29,7 +29,7 @@ Ltac brk H :=
           end);
   inv_some H.
 
-Ltac simp := cbn [pc th n setpc setth set_mux set_sc set_closed set_cerr status caller mux closed closeErr] in *.
+Ltac simp := cbn [pc th n setpc setth set_mux set_sc set_closed set_cerr set_h clr_h status caller mux closed closeErr hctx] in *.
 Ltac ucase := unfold upd in *; repeat match goal with
    | |- context [?a =? ?b] => destruct (Nat.eqb_spec a b); subst
    | H : context [?a =? ?b] |- _ => destruct (Nat.eqb_spec a b); subst end.
@@ -59,7 +59,7 @@ Proof.
   (* existence *)
   all: try solve [exists g; right; simp; apply upd_eq].
   all: try solve [exists g; left; simp; ucase; try (exfalso; lia); rewrite ?Pg; try destruct (rel_after_send _);
-                  try reflexivity; try apply after_recv_active].
+                  try destruct (handlers_locked _); try reflexivity; try apply after_recv_active].
   all: try solve [match goal with Hp : pc _ ?r = _ |- _ =>
                   exists r; left; simp; rewrite upd_eq; try (destruct k); try apply after_recv_active; reflexivity end].
   all: try solve [exists a0; simp; ucase; try exact B; destruct B as [B|B]; rewrite Pg in B; discriminate B].
@@ -88,7 +88,7 @@ Proof.
   intros cf s [g l] s' RF N H h. step_cases H Pg; brk H.
   all: pose proof (N h) as Nh; pose proof (N g) as Ng; rewrite ?Pg in *; simp; ucase; rewrite ?Pg in *;
        repeat match goal with H : pc _ _ = _ |- _ => rewrite H in * end;
-       try rewrite RF in *; try (destruct k); try (destruct m); try (destruct (c =? 0));
+       try rewrite RF in *; try (destruct k); try (destruct m); try (destruct (c =? 0)); try (destruct (handlers_locked cf));
        cbn [at_E8 after_recv] in *; try congruence; auto.
   all: try (unfold after_recv; destruct (c =? 0); reflexivity).
   all: try (unfold after_recv; destruct (h =? 0); reflexivity).
@@ -136,7 +136,7 @@ Proof.
   intros cf s [g l] s' D H h. step_cases H Pg; brk H.
   all: pose proof (D h) as Dh; pose proof (D g) as Dg; rewrite ?Pg in *; simp; ucase; rewrite ?Pg in *;
        simp; cbn [in_end] in *; try congruence; auto.
-  all: try (intros; try destruct (rel_after_send cf); reflexivity).
+  all: try (intros; try destruct (rel_after_send cf); try destruct (handlers_locked cf); reflexivity).
   all: repeat match goal with H : pc _ _ = _ |- _ => rewrite H in * end; cbn [in_end] in *;
        intros Hd; try (specialize (Dh Hd)); try congruence; auto.
   all: try (cbn in Hd; discriminate Hd).
